@@ -333,7 +333,7 @@ fn make_leaf(cfg: &Cfg, leaf: Leaf, log_blowup: usize) -> Result<Node, String> {
 // Parameters
 // ---------------------------------------------------------------------------------------------
 
-const N_PARAMS: usize = 5;
+const N_PARAMS: usize = 6;
 
 fn params(id: usize, log_blowup: usize) -> ProveNextLayerParams {
     let (packing, profile) = match id % N_PARAMS {
@@ -341,6 +341,8 @@ fn params(id: usize, log_blowup: usize) -> ProveNextLayerParams {
         1 => (TablePacking::new(2, 2), ConstraintProfile::Standard),
         2 => (TablePacking::new(1, 8).with_horner_pack_k(3), ConstraintProfile::Standard),
         3 => (TablePacking::new(3, 3), ConstraintProfile::RecursionOptimized),
+        // recompose table packed two operations per row (the examples' non-default --recompose-lanes)
+        4 => (TablePacking::new(1, 4).with_npo_lanes(p3_circuit::ops::NpoTypeId::recompose(), 2), ConstraintProfile::Standard),
         _ => (TablePacking::new(1, 4).with_horner_pack_k(4), ConstraintProfile::Standard),
     };
     ProveNextLayerParams {
